@@ -398,12 +398,14 @@ def finish(rep: Report, *, explanation, rule, trusted_base=()):
         f"unknown={rep.queries['unknown']} leaves={rep.paths.get('leaves', 0)} solver={rep.solver_s:.1f}s wall={wall:.1f}s "
         f"violations={len(new_viol)} known={len(known_hit)}"
     )
-    if rep.harness_errors:
-        for h in rep.harness_errors[:10]:
-            print("HARNESS-ERROR:", h)
-        return EXIT_HARNESS
+    for h in rep.harness_errors[:10]:
+        print("HARNESS-ERROR:", h)
     if new_viol:
+        # every reported violation was reproduced on the real code, so it stands whatever else the harness
+        # could not encode (broken code frequently leaves the encodable fragment elsewhere)
         return EXIT_VIOLATION
+    if rep.harness_errors:
+        return EXIT_HARNESS
     if distinct < 2:
         print("HARNESS-ERROR: fewer than two obligations were decided; nothing is claimed")
         return EXIT_HARNESS
